@@ -2,7 +2,8 @@
 # MANIFEST.setup_cmd: regenerate Gen/*.v from /repo, full clean .vo build of the Coq development, hygiene gate.
 set -e
 cd "$(dirname "$0")"
-export PYTHONPATH=/repo/src:/verif/harness PYTHONHASHSEED=0 PYTHONDONTWRITEBYTECODE=1
+export PYGOM_REPO="${PYGOM_REPO:-/repo}"
+export PYTHONPATH="$PYGOM_REPO/src:$(pwd)/harness:$(pwd)/gen" PYTHONHASHSEED=0 PYTHONDONTWRITEBYTECODE=1
 mkdir -p coq/Gen .work evidence replays
 # hygiene gate: no axioms, admits or kernel switches anywhere in the hand-written development
 if grep -rnE '\b(Admitted|admit|Axiom|Axioms|Parameter|Parameters|Conjecture|Unset Guard Checking|bypass_check|Admit Obligations|type-in-type|impredicative-set)\b' coq --include='*.v' | grep -v '^coq/Gen/' ; then
